@@ -749,6 +749,11 @@ def main(tier, replay=None):
     if abs(float(electron_mass_eV) - ME) > 0:
         run.violation({"kind": "correspondence", "broken": f"electron_mass_eV = {electron_mass_eV!r} differs from Optics/Maps.v m_e = {ME}"}, no_input=True)
     proof_ok = run.proof_stage()
+    # second tie: the linear-optics core is re-translated from REPO's source and proved equal to Optics/Maps.v (Gen/MapsGenEquiv.v)
+    import translate_stage
+    tr = translate_stage.translator_obligation(run)
+    if tr["status"] != "ok":
+        run.notes.append("translator obligation: " + json.dumps(translate_stage.replay_fields(tr))[:600])
     if not proof_ok:
         run.notes.append(run.proof_problem)
     run.cov["undulator_model"] = ("und_map (code before the repair of F3; excluded from the family theorem, C09_undulator_off_refuted)" if STATE["f3_known"]
@@ -882,6 +887,9 @@ def main(tier, replay=None):
         spec, energy, beam = corr_cases[idx] if idx < len(corr_cases) else (None, None, None)
         run.violation({"kind": "correspondence", "broken": f"Coq model (Optics/Maps.v, Optics/Off.v) disagrees with the code: {what}", "spec": spec,
                        "energy": energy, "beam": beam, "coqc": err}, no_input=True)
+    elif tr["status"] != "ok":
+        # the source no longer translates to the proved model; none of this run's oracles found a failing input
+        run.violation(translate_stage.replay_fields(tr), no_input=True)
     elif not proof_ok:
         run.violation({"kind": "proof", "broken": run.proof_problem}, no_input=True)
     return run.finish("proof")
